@@ -995,7 +995,9 @@ class Messenger(Connection):
         self.send_ready()
 
         self._keepalive_reset()
-        self._idle_reset()
+        # while terminating, our own keepalives do not postpone the close
+        if not (self._in_term and isinstance(pkt.payload, messages.Keepalive)):
+            self._idle_reset()
 
     def send_reject(self, reason, pkt=None):
         ''' Send a message rejection response.
